@@ -215,8 +215,19 @@ def run_property(prop, tier, seed, driver_args, rule, extra_cov=None, assumption
         if models:
             mc = model_checks(d, tier, prop)
         tr = os.path.join(d, "trace.ndjson")
-        vlib.run_harness(["proto", "-out", tr, "-seed", seed] + driver_args, timeout=3000)
-        rows = vlib.read_ndjson(tr)
+        died = None
+        try:
+            vlib.run_harness(["proto", "-out", tr, "-seed", seed] + driver_args, timeout=3000, partial_ok=True)
+            rows = vlib.read_ndjson(tr)
+        except vlib.HarnessDied as e:
+            # the code under test took the driver down or hung it: what happened before is on disk and is judged; only if that
+            # shows nothing wrong is this an infrastructure error
+            died = str(e)
+            rows = vlib.read_ndjson_partial(tr)
+            while rows and rows[-1]["op"] != "end" and rows[-1]["op"] != "step":
+                rows.pop()
+            if not rows:
+                raise vlib.InfraError(died)
         for i, extra in enumerate(more):
             # further batches of runs (e.g. one scenario of the library only), same seed
             tr2 = os.path.join(d, "trace_more%d.ndjson" % i)
@@ -257,6 +268,8 @@ def run_property(prop, tier, seed, driver_args, rule, extra_cov=None, assumption
         conf_cov["binding_selftest"] = binding_selftest(d, allrows, prop, cfg) if not v.violations else "skipped (violations reported)"
         # panics inside replicas discredit nothing here but are reported (they belong to C10)
         panics = sum(1 for x in allrows if x["op"] == "step" and x["panic"])
+    if died and not v.violations:
+        raise vlib.InfraError("driver died and the trace up to there shows no violation: " + died[:1500])
     rc = v.finish()
     rows = allrows
     runs = split_runs(rows)
